@@ -67,7 +67,15 @@ def one_dump(ctx, rng, idx, pending):
     # where the process stands while dumping: anywhere (absolute target), or in a directory that already holds a dump
     # of the same data to '.', the target being a relative sub-directory
     cwd_mode = target == 'path' and rng.random() < 0.35
-    case = {'tables': [len(t) for t in tables], 'format': fmt, 'target': target, 'add_filehash_to_path': filehash,
+    # how the dumping flow object is used: once; again after a run that failed part-way (the dumper object is the same);
+    # a second time after a complete run.  The statistics describe the dump that was written last.  (A dump_to_zip object
+    # opens its archive when it is constructed and is good for one run only: path dumps only.)
+    history = 'once' if (cwd_mode or target == 'zip') else rng.choice(['once', 'once', 'retry-after-failure', 'run-twice'])
+    total_rows = sum(len(t) or 1 for t in tables)
+    fail_at = rng.choice([total_rows, max(1, total_rows - 1), rng.randint(1, total_rows)])
+    # the descriptors that reach the dumper may already carry counters (a package loaded from an earlier dump does)
+    carried = rng.random() < 0.3
+    case = {'tables': [len(t) for t in tables], 'format': fmt, 'history': history, 'incoming_descriptors_carry_counters': carried, 'first_attempt_fails_at_row': fail_at if history == 'retry-after-failure' else None, 'target': target, 'add_filehash_to_path': filehash,
             'pretty_descriptor': pretty, 'counters': style, 'cwd_holds_an_earlier_dump': cwd_mode}
 
     def run(tag):
@@ -78,6 +86,34 @@ def one_dump(ctx, rng, idx, pending):
             if not t:
                 steps.append(DF.filter_rows(equals=[{'id': -1}], resources='res_%d' % (i + 1)))
         kw = dict(format=fmt, counters=copy.deepcopy(counters), add_filehash_to_path=filehash, pretty_descriptor=pretty)
+        if carried:
+            def nested(name, value):
+                parts = name.split('.')
+                out = value
+                for part in reversed(parts[1:]):
+                    out = {part: out}
+                return parts[0], out
+
+            def stamp(package):
+                for obj, props in [(package.pkg.descriptor, [(names['pkg_rows'], 1000), (names['pkg_bytes'], 5000)])] + \
+                        [(r, [(names['res_rows'], 77), (names['res_bytes'], 12345), (names['res_hash'], 'stale')])
+                         for r in package.pkg.descriptor['resources']]:
+                    for name, value in props:
+                        if name:
+                            k, v = nested(name, value)
+                            if isinstance(v, dict) and isinstance(obj.get(k), dict):
+                                def merge(a, b):
+                                    for kk, vv in b.items():
+                                        if isinstance(vv, dict) and isinstance(a.get(kk), dict):
+                                            merge(a[kk], vv)
+                                        else:
+                                            a[kk] = vv
+                                merge(obj[k], v)
+                            else:
+                                obj[k] = v
+                yield package.pkg
+                yield from package
+            steps.append(stamp)
         if target == 'path' and cwd_mode:
             work = base
             base = os.path.join(work, 'mirror')
@@ -96,8 +132,27 @@ def one_dump(ctx, rng, idx, pending):
             else:
                 os.makedirs(base, exist_ok=True)
                 steps.append(DF.dump_to_zip(os.path.join(base, 'o.zip'), **kw))
+            fault = {'armed': history == 'retry-after-failure', 'n': 0}
+
+            def faulty(rows):
+                for r in rows:
+                    fault['n'] += 1
+                    if fault['armed'] and fault['n'] == fail_at:
+                        fault['armed'] = False
+                        raise RuntimeError('fault in the first attempt')
+                    yield r
+            steps.insert(len(steps) - 1, faulty)
+            flow = Flow(*steps)
             with quiet():
-                dp, stats = Flow(*steps).process()
+                if history == 'retry-after-failure':
+                    try:
+                        flow.process()
+                    except Exception:  # noqa
+                        pass
+                    fault['armed'] = False
+                elif history == 'run-twice':
+                    flow.process()
+                dp, stats = flow.process()
         if target == 'path':
             def read(p):
                 with open(os.path.join(base, p), 'rb') as f:
